@@ -12,7 +12,7 @@ condition starting on that line has been both true and false.
 
 The routines are listed in ROUTINES below (regex on the demangled name, status modelled /
 search-only).  Outcomes that cannot be taken on any input are listed in
-props/C16.unreachable.json with the reason (checked by hand; a guard of that list that *is*
+props/unreachable_C16.json with the reason (checked by hand; a guard of that list that *is*
 two-sided is reported, so that the list cannot silently rot).
 
 Called from gens/C16.py::coverage_extra on every run (evidence key `guard_coverage`), and from
@@ -101,7 +101,7 @@ ROUTINES = [
 
 
 def _load_unreachable():
-    p = os.path.join(VERIF, "props", "C16.unreachable.json")
+    p = os.path.join(VERIF, "props", "unreachable_C16.json")
     if os.path.exists(p):
         with open(p) as f:
             return [(e["routine"], e["line_regex"], e["reason"]) for e in json.load(f)]
@@ -291,7 +291,7 @@ def markdown(res, tier, seed, nops):
            "cases, the same scripts `tools/check.py C16` runs).  A *guard* is a source line of the routine on which a condition starts",
            "(operand of `&&` / `||`, condition of `if` / `while` / `for` / `?:`, `case`); it is *two-sided* when every condition starting",
            "on the line has been both true and false.  The same table is recomputed on every run of the check (evidence key",
-           "`guard_coverage`).  Outcomes that no input can take are listed in `props/C16.unreachable.json` with the reason.", "",
+           "`guard_coverage`).  Outcomes that no input can take are listed in `props/unreachable_C16.json` with the reason.", "",
            "Totals: %d routines, %d guards, %d two-sided, %d one-sided because the other outcome is unreachable, **%d open**." % (
                s["routines"], s["guards"], s["two_sided"], s["one_sided_unreachable_by_argument"], s["one_sided_open"]), "",
            "| routine | status | calls | guards | two-sided | condition outcomes taken | one-sided (open) | one-sided (unreachable) |", "|---|---|---|---|---|---|---|---|"]
